@@ -157,8 +157,71 @@ def strip_names(w):
     return re.sub(r'([GT])\d+', r'\1', w)
 
 
+def configs(tier):
+    if os.environ.get('C04_BOUNDS'):
+        return [tuple(int(x) for x in os.environ['C04_BOUNDS'].split(','))]
+    return [(3, 2)] if tier == 'quick' else [(3, 3), (4, 2), (5, 1)]
+
+
 def run(tier):
-    depth, width = (3, 2) if tier == 'quick' else (3, 3)
+    t0 = time.time()
+    parts = [run_config(tier, d, w) for d, w in configs(tier)]
+    pending = [p for r in parts for p in r['pending']]
+    unconfirmed = [u for r in parts for u in r['unconfirmed']]
+    if unconfirmed and not pending:
+        # a solver assignment that the real pass does not reproduce says the encoding (or a model bound) is wrong for
+        # this tree: nothing is reported about the code
+        raise Inconclusive('; '.join(unconfirmed[:3]))
+    known = known_keys(PROP)
+    out_v = []
+    for qname, text, line, got_ in pending:
+        key = '%s:%s' % (qname, line)
+        what = '%s fails for body [%s]: the label pass gives [%s] (%s)' % (qname, line, got_, text)
+        if key in known:
+            log('KNOWN-FINDING: property=%s %s' % (PROP, what))
+            continue
+        rp = write_replay(PROP, key, {'property': PROP, 'query': qname, 'statement': text, 'body': line, 'native': got_,
+                                      'how': 'echo "%s" | pv_replay label-eval' % line})
+        out_v.append((what, rp))
+    wall = time.time() - t0
+    queries = [q for r in parts for q in r['queries']]
+    used = sum(r['used'] for r in parts)
+    bounds_txt = ', '.join('depth <= %d with up to %d statements per body/block' % (r['depth'], r['width']) for r in parts)
+    models = {}
+    for r in parts:
+        for k, v in r['models'].items():
+            models[k] = models.get(k, 0) + v
+    cov = {
+        'states': max(1, sum(r['blocks'] for r in parts)), 'transitions': max(1, sum(r['loops'] for r in parts)),
+        'traces_validated_against_impl': used, 'samples': queries,
+        'explanation': 'label_references::analyze (Analyzable for Declaration/FunctionBody/Block/Statement with Analyzer::declare_label/'
+                       'use_label/push_scope/pop_scope) symbolically executed from MIR on a symbolic function body: statement trees of '
+                       '%s (symbolic lengths), label names as 8-bit tokens; the output tree is compared node by node with the '
+                       'visibility rule.' % bounds_txt,
+        'functions_encoded': sorted(set(f for r in parts for f in r['functions'])),
+        'bounds': {'configurations': [{'nesting_depth': r['depth'], 'statements_per_block': r['width']} for r in parts],
+                   'outside': 'deeper or wider bodies; several functions'},
+        'queries_discharged': len(queries), 'queries_unsat': len([q for q in queries if q['result'] == 'unsat']),
+        'solver_time_s': round(sum(r['solver_s'] for r in parts), 3), 'symbolic_execution_s': round(sum(r['exec_s'] for r in parts), 3),
+        'mir_dump_s': round(parts[0]['dump_s'], 2),
+        'std_models_used': models,
+        'outside_claim': ['jumps into another function (one body is analysed)', 'the generator', 'if-branches that are neither goto nor block (rejected by the syntax pass, C06)'],
+    }
+    write_evidence(PROP, tier, 'model_checking', cov, wall,
+                   ['rustc nightly MIR dump', 'mirsym and its models (owned reversed Vec iteration, nested Vec as label stack, slice find)',
+                    'label names are compared as opaque tokens (String equality)',
+                    'inputs are restricted to bodies whose if-branches are goto/block (else: also if) and that contain no poisoned statement',
+                    'native validation through the guarded hook scoper::verif_label_analyze'], violations=len(out_v))
+    log('%s: %s, %d queries (%d unsat), %d native comparisons, exec %.1fs, solver %.1fs, wall %.1fs'
+        % (PROP, ' + '.join('depth %d width %d' % (r['depth'], r['width']) for r in parts), len(queries), cov['queries_unsat'], used,
+           cov['symbolic_execution_s'], cov['solver_time_s'], wall))
+    for what, rp in out_v:
+        log('VIOLATION property=%s replay=%s' % (PROP, rp))
+        log('  ' + what)
+    return 1 if out_v else 0
+
+
+def run_config(tier, depth, width):
     t0 = time.time()
     path, dump_s = mir_dump()
     dump = MirDump(path)
@@ -190,6 +253,9 @@ def run(tier):
     except Unsupported as e:
         raise Inconclusive('cannot encode the label scoping pass: %s' % e)
     exec_s = time.time() - t0 - dump_s
+    if os.environ.get('VERIF_DEBUG'):
+        import resource
+        log('  exec %.1fs, maxrss %d MB, blocks %d' % (exec_s, resource.getrusage(resource.RUSAGE_SELF).ru_maxrss // 1024, ex.stats['blocks']))
     try:
         od = outp.f['items'].fields[0]
         out = od.variants['Function'][[f for f, _ in ddef.variant_by_name('Function')[2]].index('body')].variants['Ok'][0]
@@ -229,6 +295,9 @@ def run(tier):
             raise Inconclusive('z3 answered unknown on %s' % qname)
         q = {'name': qname, 'result': str(r), 'seconds': round(dt, 3), 'statement': text}
         queries.append(q)
+        if os.environ.get('VERIF_DEBUG'):
+            import resource
+            log('  %s: %s %.1fs, maxrss %d MB' % (qname, r, dt, resource.getrusage(resource.RUSAGE_SELF).ru_maxrss // 1024))
         if r == z3.sat:
             m = s.model()
             line = body_wire(m, items_in, n_in)
@@ -272,7 +341,10 @@ def run(tier):
     s2 = z3.Solver()
     s2.add(*ex.assumptions)
     bad, used = [], 0
+    t_val = time.time()
     for line, r_n in zip(lines, got):
+        if used >= 60 and time.time() - t_val > (90 if tier == 'quick' else 240):
+            break           # big encodings: every comparison is a solver call; the sample is time-boxed
         cons = []
         parts = line.split(' ')
         if len(parts) > width:
@@ -296,47 +368,11 @@ def run(tier):
     if bad:
         raise Inconclusive('encoding disagrees with the native label pass: %r' % bad[:3])
 
-    if unconfirmed and not pending:
-        # a solver assignment that the real pass does not reproduce says the encoding (or a model bound) is wrong for
-        # this tree: nothing is reported about the code
-        raise Inconclusive('; '.join(unconfirmed[:3]))
-    known = known_keys(PROP)
-    out_v = []
-    for qname, text, line, got_ in pending:
-        key = '%s:%s' % (qname, line)
-        what = '%s fails for body [%s]: the label pass gives [%s] (%s)' % (qname, line, got_, text)
-        if key in known:
-            log('KNOWN-FINDING: property=%s %s' % (PROP, what))
-            continue
-        rp = write_replay(PROP, key, {'property': PROP, 'query': qname, 'statement': text, 'body': line, 'native': got_,
-                                      'how': 'echo "%s" | pv_replay label-eval' % line})
-        out_v.append((what, rp))
-    wall = time.time() - t0
-    cov = {
-        'states': max(1, int(ex.stats['blocks'])), 'transitions': max(1, int(ex.stats['loop_iterations'])),
-        'traces_validated_against_impl': used, 'samples': queries,
-        'explanation': 'label_references::Analyzable for FunctionBody/Block/Statement with Analyzer::declare_label/use_label/'
-                       'push_scope/pop_scope symbolically executed from MIR on a symbolic function body: statement trees of depth '
-                       '<= %d with up to %d statements per body/block (symbolic lengths), label names as 8-bit tokens; the output '
-                       'tree is compared node by node with the visibility rule.' % (depth, width),
-        'functions_encoded': sorted(ex.inlined),
-        'bounds': {'nesting_depth': depth, 'statements_per_block': width, 'outside': 'deeper or wider bodies; several functions'},
-        'queries_discharged': len(queries), 'queries_unsat': len([q for q in queries if q['result'] == 'unsat']),
-        'solver_time_s': round(solver_s, 3), 'symbolic_execution_s': round(exec_s, 3), 'mir_dump_s': round(dump_s, 2),
-        'std_models_used': {k: int(v) for k, v in ex.used_models.items()},
-        'outside_claim': ['jumps into another function (one body is analysed)', 'the generator', 'if-branches that are neither goto nor block (rejected by the syntax pass, C06)'],
-    }
-    write_evidence(PROP, tier, 'model_checking', cov, wall,
-                   ['rustc nightly MIR dump', 'mirsym and its models (owned reversed Vec iteration, nested Vec as label stack, slice find)',
-                    'label names are compared as opaque tokens (String equality)',
-                    'inputs are restricted to bodies whose if-branches are goto/block (else: also if) and that contain no poisoned statement',
-                    'native validation through the guarded hook scoper::verif_label_analyze'], violations=len(out_v))
-    log('%s: depth %d width %d, %d queries (%d unsat), %d native comparisons, exec %.1fs, solver %.1fs, wall %.1fs'
-        % (PROP, depth, width, len(queries), cov['queries_unsat'], used, exec_s, solver_s, wall))
-    for what, rp in out_v:
-        log('VIOLATION property=%s replay=%s' % (PROP, rp))
-        log('  ' + what)
-    return 1 if out_v else 0
+    for q in queries:
+        q['name'] += '@depth%d,width%d' % (depth, width)
+    return {'depth': depth, 'width': width, 'queries': queries, 'pending': pending, 'unconfirmed': unconfirmed, 'used': used,
+            'blocks': int(ex.stats['blocks']), 'loops': int(ex.stats['loop_iterations']), 'models': {k: int(v) for k, v in ex.used_models.items()},
+            'functions': list(ex.inlined), 'solver_s': solver_s, 'exec_s': exec_s, 'dump_s': dump_s}
 
 
 def bind(T, s, txt, cons):
